@@ -21,7 +21,7 @@ func init() {
 func (c07) ID() string    { return "C07" }
 func (c07) Level() string { return "exploration" }
 func (c07) Rule() string {
-	return "A case is a log over one or two protected references in which every entry is independently valid (pushed by the authorised developer) or violating (pushed by an unauthorised key), revoked or not (skip annotations placed right after, anywhere later, or one annotation covering several entries, by any actor; message-only annotations that revoke nothing may name any entry), and carries one of three trees (so tree-sameness to the last good state arises in every combination), interleaved with unprotected-ref pushes, policy changes that switch who is authorised, and attestation entries. Thorough tier: all patterns (valid/violating x skipped/not x 3 trees) up to length 4 are swept by index, length 5-12 sampled; quick samples. Oracle: the recovery rule as worded, evaluated over ground truth. Distinct = distinct (flag pattern, annotation placement class, interleaving); non-trivial = at least one violating entry and at least one skip annotation."
+	return "A case is a log over one or two protected references in which every entry is independently valid (pushed by the authorised developer) or violating (pushed by an unauthorised key), revoked or not (skip annotations placed right after, anywhere later, or one annotation covering several entries, by any actor; message-only annotations that revoke nothing may name any entry), and carries one of three trees (so tree-sameness to the last good state arises in every combination), interleaved with unprotected-ref pushes, policy changes that switch who is authorised, and attestation entries. Thorough tier: all patterns (valid/violating x skipped/not x 3 trees) up to length 4 are swept by index, length 5-12 sampled; quick samples. Every third case is instead a policy-world history (thresholds up to 2, approvals, delegations, policy edits) with incidents — violation, revocation, fix, and other operations (policy changes, approvals for the fix and for the next change) recorded while the incident is open. Oracle: the recovery rule as worded, evaluated over ground truth. Distinct = distinct (flag pattern, annotation placement class, interleaving); non-trivial = at least one violating entry and at least one skip annotation."
 }
 func (c07) Components() map[string]string {
 	return map[string]string{"internal/policy verifier (recovery loop)": "real", "pkg/rsl readers": "real", "gitstore.Storer": "stub (SimStore)"}
@@ -39,7 +39,83 @@ type c07Entry struct {
 	Tree int // 0..2
 }
 
-func (c07) Generate(r *core.Rand, tier string, idx uint64) *core.Case {
+// generateWorld: a policy-world history (thresholds, approvals, delegations, policy edits) with
+// incidents — violation, revocation, fix, and operations of other kinds inside the open incident —
+// judged by the same recovery rule.
+func (c07) generateWorld(r *core.Rand, tier string, idx uint64) *core.Case {
+	c := &core.Case{Property: "C07", Engine: "simstore", Config: map[string]int{}, Flags: map[string]bool{"world": true}}
+	cfg := drawPWCfg(r, tier)
+	cfg.globalRules, cfg.propagation = false, false
+	cfg.revoke, cfg.unauth, cfg.approvals = true, true, true
+	cfg.maxThr = 2
+	cfg.verifyMid = false
+	g := &pwGen{r: r, cfg: cfg, b: &opBuilder{}}
+	g.generate()
+	c.Ops = g.b.ops
+	c.Config["nDev"] = cfg.nDev
+	return c
+}
+
+func (d c07) executeWorld(c *core.Case) *core.Result {
+	res := &core.Result{}
+	run := runPolicyCase(c, pwKeys(c.Config["nDev"]), nil, []string{mainRef, relRef}, nil)
+	if run.Harness != "" {
+		res.HarnessErr = run.Harness
+		return res
+	}
+	if run.Panic != "" {
+		res.Violate("C07", "panic", run.Panic, 0)
+		return res
+	}
+	vec := []string{}
+	incidents := 0
+	for _, rec := range run.Recs {
+		if modeOf(&rec.Op) != "full" {
+			continue
+		}
+		lg := truncatedLog(run, rec.LogLen)
+		exp, why := recoveryExpectation(lg, rec.Op.Ref)
+		v := rec.Verdict
+		vec = append(vec, fmt.Sprintf("%s=%s/%d", strings.TrimPrefix(rec.Op.Ref, "refs/heads/"), v.Class, exp))
+		switch exp {
+		case mustReject:
+			res.Stat("verdicts_must_reject", 1)
+			if v.Class == "accept" {
+				res.Violate("C07", "violation-tolerated", fmt.Sprintf("full verification of %s succeeded although %s", rec.Op.Ref, why), rec.Op.ID, "policy-world")
+			}
+		case mustAccept:
+			res.Stat("recovered_histories", 1)
+			revoked := false
+			for _, p := range lg.PositionsForRef(rec.Op.Ref) {
+				if lg.W.Entries[p].Kind == "reference" && lg.Revoked(p) {
+					revoked = true
+				}
+			}
+			if revoked {
+				incidents++
+			}
+			if v.Class != "accept" {
+				res.Violate("C07", "recovery-rejected", fmt.Sprintf("full verification of %s returned %s (%s) although %s", rec.Op.Ref, v.Class, v.Err, why), rec.Op.ID, "policy-world")
+			}
+		default:
+			res.Stat("verdicts_unspecified", 1)
+		}
+	}
+	pattern := entryPattern(run)
+	res.Steps = len(c.Ops)
+	res.Digest = core.HashStrings(strings.Join(pattern, ","), strings.Join(vec, ","), refDigest(run.W.St))
+	res.StateKey = "world/" + core.HashStrings(strings.Join(pattern, ","), strings.Join(vec, ","))
+	res.Nontrivial = incidents > 0
+	res.Stat("probe:world_history_recovered_and_accepted", boolInt(incidents > 0))
+	res.Sample = map[string]any{"ops": describeOps(c.Ops), "entries": pattern, "verdict/expectation(1=accept,2=reject,0=unspecified)": vec}
+	return res
+}
+
+func (d c07) Generate(r *core.Rand, tier string, idx uint64) *core.Case {
+	if idx%3 == 2 {
+		return d.generateWorld(r, tier, idx)
+	}
+	idx -= (idx + 1) / 3 // the pattern cases keep a gap-free numbering (the thorough tier's sweep walks it)
 	c := &core.Case{Property: "C07", Engine: "simstore", Config: map[string]int{}, Flags: map[string]bool{}}
 	var pat []c07Entry
 	sweep := false
@@ -243,6 +319,9 @@ func recoveryExpectation(l *model.Log, ref string) (expectation, string) {
 }
 
 func (d c07) Execute(c *core.Case) *core.Result {
+	if c.Flags["world"] {
+		return d.executeWorld(c)
+	}
 	res := &core.Result{}
 	w := world.NewWithKeys([]int{0, 1, 2, outsiderKey})
 	w.Env.RecordEvents = false
